@@ -17,7 +17,6 @@ from ..pysym.interp import Unsupported
 from ..pysym.run import run_parallel
 
 LEVEL = "model_checking"
-NEEDS_CORE = False
 
 ATOM, REF = "src/basilisp/lang/atom.py", "src/basilisp/lang/reference.py"
 FIELDS = {"_state": "val", "_lock": "lock", "_validator": "const", "_meta": "val"}
@@ -325,7 +324,85 @@ def mark_line_events(trace):
     return trace
 
 
+WRAPPERS = r'''
+ATOM, SWAP, RESET, SWAPV, RESETV, CAS, DEREF = (cfn(n) for n in ("atom", "swap!", "reset!", "swap-vals!", "reset-vals!", "compare-and-set!", "deref"))
+ADDW, SETV = cfn("add-watch"), cfn("set-validator!")
+def DIAG(**k):
+    return k
+'''
+
+
+def wrapper_specs(timeout):
+    """sequential semantics of the core wrappers (core.lpy implements swap!/reset! itself on top of compare-and-set!)"""
+    from ..chx.driver import Spec
+    from ..chx.lisp import harness
+    body = '''    a = ATOM(init)
+    seen = []
+    ADDW(a, "w", lambda k, ref, old, new: seen.append((old, new)))
+    model = init
+    transitions = []
+    for op, v in ((o0, v0), (o1, v1), (o2, v2)):
+        if op == 0:
+            r = SWAP(a, lambda x, y: x + y, v); want = model + v
+            if r != want: return False
+            transitions.append((model, want)); model = want
+        elif op == 1:
+            r = RESET(a, v)
+            if r != v: return False
+            transitions.append((model, v)); model = v
+        elif op == 2:
+            r = list(SWAPV(a, lambda x: x * 2))
+            if r != [model * 2, model] and r != [model, model * 2]: return False
+            transitions.append((model, model * 2)); model = model * 2
+        elif op == 3:
+            r = list(RESETV(a, v))
+            if r != [v, model] and r != [model, v]: return False
+            transitions.append((model, v)); model = v
+        elif op == 4:
+            r = CAS(a, v, v + 1)
+            if r is not (model == v): return False
+            if r:
+                transitions.append((model, v + 1)); model = v + 1
+        if DEREF(a) != model:
+            return False
+    return seen == transitions'''
+    s1 = Spec("core-wrappers/sequential-semantics+watches",
+              harness("init: int, o0: int, v0: int, o1: int, v1: int, o2: int, v2: int", body,
+                      pre=["0 <= o0 < 5", "0 <= o1 < 5", "0 <= o2 < 5"], module_code=WRAPPERS, warm=[(1, 0, 2, 1, 3, 4, 3)]),
+              timeout=timeout, bound="3 operations among swap!/reset!/swap-vals!/reset-vals!/compare-and-set! with symbolic ints; one watch",
+              meta={"kind": "wrappers"})
+    body = '''    a = ATOM(init)
+    SETV(a, lambda x: x >= 0)
+    model = init
+    for op, v in ((o0, v0), (o1, v1)):
+        try:
+            if op == 0:
+                SWAP(a, lambda x, y: x + y, v); new = model + v
+            elif op == 1:
+                RESET(a, v); new = v
+            else:
+                ok = CAS(a, model, v); new = v
+            if new < 0:
+                return False          # an invalid value was accepted
+            model = new
+        except Exception:
+            if (model + v if op == 0 else v) >= 0:
+                return False          # a valid value was rejected
+        if DEREF(a) != model or DEREF(a) < 0:
+            return False
+    return True'''
+    s2 = Spec("core-wrappers/validator", harness("init: int, o0: int, v0: int, o1: int, v1: int", body,
+                                                 pre=["init >= 0", "0 <= o0 < 3", "0 <= o1 < 3"], module_code=WRAPPERS, warm=[(1, 0, 2, 1, -3)]),
+              timeout=timeout, bound="2 operations with a validator (x >= 0); values symbolic ints", meta={"kind": "wrappers"})
+    return [s1, s2]
+
+
 def run(rep, tier, seed):
+    from ..chx.flow import run_specs
+    if getattr(rep, "only", None) is None or "wrappers" in rep.only:
+        rep.encoded_lisp("src/basilisp/core.lpy", ["swap!", "reset!", "swap-vals!", "reset-vals!", "compare-and-set!", "add-watch", "set-validator!"],
+                         "compiled from source, executed on CrossHair symbolic ints (single thread)")
+        run_specs(rep, wrapper_specs(60 if tier == "quick" else 300), lambda s_, c: {"kind": "wrappers"}, lambda s_, c: f"{s_.name}: {c}")
     rep.encoded(ATOM, ["Atom._compare_and_set", "Atom.compare_and_set", "Atom.deref", "Atom.reset", "Atom.swap"],
                 "compiled to a statement-granularity CFG (vlib/pysym/cfg.py), unrolled with a symbolic schedule")
     rep.encoded(REF, ["RefBase._validate", "RefBase._notify_watches"], "inlined into the CFG")
